@@ -35,6 +35,11 @@ CLAIMED = {
 }
 
 CLAIMED.update({
+    "C08": {
+        "text": "THIN SLICE. The sweep decisions of SidecarStore::collect_garbage — two statement slices copied verbatim each run from inside its async listing loops: a generation object is a deletion candidate only if it is older than the run's floor (not an in-flight write), the key's commit point in the mark snapshot does not reference exactly that generation, and the commit point was decodable; a legacy object only if the commit point is neither in the legacy layout nor undecodable. Complete over all u64 timestamps on every snapshot state. 'Garbage collection never removes a payload that a committed key refers to' is decided only with respect to the snapshot the decision is handed; crash atomicity of the wrapper writes, the mark phase, the in-flight / re-read guards and GC-vs-writer schedules are not decidable by contracts here.",
+        "note": "Scope: the two sweep decisions of collect_garbage only.",
+        "technique": TECH_K,
+    },
     "C09": {
         "text": "Kani contracts on the pure kernels the integrity argument rests on (complete over the full domain unless marked): derive_gcm_nonce keeps the 4-byte salt and is injective in the chunk index (no nonce reuse across chunks of one object); chunk_aad binds chunk size and index injectively (a chunk cannot be replayed elsewhere); chunk-AAD version resolution (unknown versions rejected, empty AAD only for LEGACY); the pre-crypto decision table of verify_metadata (stripped / partial authentication fields and strict-mode legacy are rejected — downgrade); field coverage of metadata_auth_aad (two metadata values differing only in one authenticated field have different sealed AAD; strings bounded <= 2 bytes) and prefix-freeness of the encoders. Verus (unbounded): chunk-span arithmetic and the plaintext trimming of the decryption stream (shared with C07). Partial.",
         "note": "Scope: nonce/AAD derivation, downgrade table, AAD field coverage, chunk indexing and trimming arithmetic. AES-GCM forgery detection is a cryptographic assumption.",
@@ -72,7 +77,6 @@ NOT_APPLICABLE = {
     "C02": "relation between three concurrent index structures and the object store maintained by async methods; nothing synchronous carries it (DESIGN §3 C02)",
     "C04": "uniqueness lives in BTreeIndex::insert under DashMap locks (Kani 0.68 ICE intrinsics.rs:243, Verus cannot parse) plus async rollback and schedules (DESIGN §3 C04)",
     "C05": "a property of schedules; Kani has no threads, Verus would need a rewrite with permission types, i.e. a model (DESIGN §3 C05)",
-    "C08": "crash atomicity and GC-vs-writer safety are invariants over backend state and interleavings of async steps (DESIGN §3 C08)",
     "C10": "index methods unreachable (Kani ICE on BTreeIndex, async flush, schedules); the only pure kernel range_key_matches_query did not finish at depth 2 in 15 min (DESIGN §3 C10, §7)",
     "C12": "search soundness/recall over a randomized concurrent graph; distance kernels define the metric and CBMC's libm model is too weak to state more (DESIGN §3 C12)",
     "C15": "nom combinator parsers unreachable for both verifiers; the only callable function validate_parser_budget exhausted 33 GB at 6 symbolic characters (DESIGN §3 C15)",
